@@ -22,6 +22,7 @@ import IocProofs.Lemmas.M2SucceedsPerm
 import Ioc.Generated.Facts
 import IocProofs.Lemmas.SemCreate
 import IocProofs.Lemmas.SemRefresh
+import IocProofs.Lemmas.M2Lookups
 namespace Ioc.C02
 open Ioc Ioc.M2
 
@@ -260,5 +261,11 @@ theorem C02_code_IsSelf (selfPtr : Nat) (addr : Nat → Nat) (t : Option Nat) (f
 /-- non-vacuity: a chain of three metas whose innermost (meta 0) is the holder's own instance -/
 example : Sem.isSelfModel 77 (fun k => if k == 0 then 77 else 10 + k) (some 2) = true ∧
     Sem.isSelfModel 77 (fun k => 10 + k) (some 2) = false := by decide
+
+/-- … and so does every lookup after the start (`M2.lookupAfter`: a lazily created component, a retry after a failure): from
+    any stopped state with an empty creation stack it stops within `fuelBound sc + 1` steps, for every graph -/
+theorem C02_lookup_terminates (sc : Scen) (st : St) (n : Nat) (hs : st.stack = []) (hnr : st.status ≠ .running) :
+    (lookupAfter sc st n).status ≠ .running :=
+  lookupAfter_terminates sc st n hs hnr
 
 end Ioc.C02
